@@ -2,6 +2,7 @@ import BU.Py
 import BU.Spec.Block
 import BU.Model.Block
 import BU.Properties.C01
+import BU.Proofs.BlockLemmas
 /-!
 # C15 — block and header parsing is faithful to the raw block
 
@@ -13,8 +14,8 @@ open Py Spec Model
 
 /-- parsing an 80-byte header and re-serialising it gives the same bytes -/
 theorem header_roundtrip (b : Bytes) (h : b.length = 80) :
-    ∃ hd, Header.parse b = .ok hd ∧ hd.serialize = .ok b := by
-  sorry
+    ∃ hd, Header.parse b = .ok hd ∧ hd.serialize = .ok b :=
+  BlockLemmas.header_serialize_parse b h
 
 /-- the fields are the little-endian protocol fields, hashes in display (reversed) order -/
 theorem header_fields (v t bits n : Nat) (prev merkle : Bytes)
@@ -22,20 +23,50 @@ theorem header_fields (v t bits n : Nat) (prev merkle : Bytes)
     (hp : prev.length = 32) (hm : merkle.length = 32) :
     Header.parse (leBytes 4 v ++ prev ++ merkle ++ leBytes 4 t ++ leBytes 4 bits ++ leBytes 4 n) =
       .ok { version := v, prev := prev.reverse, merkle := merkle.reverse, time := t, bits := bits, nonce := n } := by
-  sorry
+  rw [BlockLemmas.header_parse_ok _ (by simp [hp, hm])]
+  have l4 : ∀ x, (leBytes 4 x).length = 4 := fun x => leBytes_length 4 x
+  have a1 : (leBytes 4 v ++ prev).length = 36 := by simp [hp]
+  have a2 : (leBytes 4 v ++ prev ++ merkle).length = 68 := by simp [hp, hm]
+  have a3 : (leBytes 4 v ++ prev ++ merkle ++ leBytes 4 t).length = 72 := by simp [hp, hm]
+  have a4 : (leBytes 4 v ++ prev ++ merkle ++ leBytes 4 t ++ leBytes 4 bits).length = 76 := by simp [hp, hm]
+  have e1 : (leBytes 4 v ++ prev ++ merkle ++ leBytes 4 t ++ leBytes 4 bits ++ leBytes 4 n).take 4 = leBytes 4 v := by
+    simp only [List.append_assoc]; exact List.take_left' (l4 v)
+  have e2 : ((leBytes 4 v ++ prev ++ merkle ++ leBytes 4 t ++ leBytes 4 bits ++ leBytes 4 n).drop 4).take 32 = prev := by
+    simp only [List.append_assoc]; rw [List.drop_left' (l4 v)]; exact List.take_left' hp
+  have e3 : ((leBytes 4 v ++ prev ++ merkle ++ leBytes 4 t ++ leBytes 4 bits ++ leBytes 4 n).drop 36).take 32 = merkle := by
+    rw [List.append_assoc (leBytes 4 v ++ prev), List.append_assoc (leBytes 4 v ++ prev), List.append_assoc (leBytes 4 v ++ prev),
+      List.drop_left' a1]
+    simp only [List.append_assoc]; exact List.take_left' hm
+  have e4 : ((leBytes 4 v ++ prev ++ merkle ++ leBytes 4 t ++ leBytes 4 bits ++ leBytes 4 n).drop 68).take 4 = leBytes 4 t := by
+    rw [List.append_assoc (leBytes 4 v ++ prev ++ merkle), List.append_assoc (leBytes 4 v ++ prev ++ merkle), List.drop_left' a2]
+    simp only [List.append_assoc]; exact List.take_left' (l4 t)
+  have e5 : ((leBytes 4 v ++ prev ++ merkle ++ leBytes 4 t ++ leBytes 4 bits ++ leBytes 4 n).drop 72).take 4 = leBytes 4 bits := by
+    rw [List.append_assoc (leBytes 4 v ++ prev ++ merkle ++ leBytes 4 t), List.drop_left' a3]
+    exact List.take_left' (l4 bits)
+  have e6 : ((leBytes 4 v ++ prev ++ merkle ++ leBytes 4 t ++ leBytes 4 bits ++ leBytes 4 n).drop 76).take 4 = leBytes 4 n := by
+    rw [List.drop_left' a4]
+    exact List.take_of_length_le (Nat.le_of_eq (l4 n))
+  rw [e1, e2, e3, e4, e5, e6, ofLE_leBytes 4 v (by omega), ofLE_leBytes 4 t (by omega), ofLE_leBytes 4 bits (by omega),
+    ofLE_leBytes 4 n (by omega)]
 
 /-- anything that is not 80 bytes is refused -/
 theorem header_rejects (b : Bytes) (h : b.length ≠ 80) : ∃ e, Header.parse b = .error e := by
-  sorry
+  unfold Header.parse
+  exact ⟨_, if_pos h⟩
 
 /-- the block hash is the byte-reversed double-SHA256 of the 80 header bytes -/
 theorem block_hash (sha256 : Bytes → Bytes) (b : Bytes) (h : b.length = 80) :
     ∃ hd, Header.parse b = .ok hd ∧ hd.hash sha256 = .ok (sha256 (sha256 b)).reverse := by
-  sorry
+  obtain ⟨hd, h1, h2⟩ := BlockLemmas.header_serialize_parse b h
+  refine ⟨hd, h1, ?_⟩
+  simp only [Header.hash, h2, bind, Except.bind, pure, Except.pure]
 
 /-- the expanded target follows the compact-bits definition (exponent 3..32 and beyond) -/
 theorem target_eq (hd : Header) (h : 3 ≤ hd.bits / 2 ^ 24) : hd.target = .ok (compactTarget hd.bits) := by
-  sorry
+  unfold Header.target compactTarget
+  have : ¬ (hd.bits / 2 ^ 24 < 3) := by omega
+  simp only [this, if_false]
+  rw [Nat.pow_mul]
 
 /-- the independent length scanner used for slicing agrees with the serialiser: on the encoding of a
 well-formed transaction followed by anything it returns exactly the encoding's length -/
